@@ -472,6 +472,18 @@ func v6Fix(res *OracleResult, r *Rng, n int, thorough bool, seeds []string, seen
 				what = "the decoded message changed when its source buffer was reused, before anything was re-encoded: " + firstDiff(pre, post)
 				return
 			}
+			// every other datagram is logged before it is forwarded, as server6's debug
+			// logger and any relay do (Summary, String); whatever the printers do to the
+			// message goes into the re-encoding (seeded change C06-12)
+			if len(b)%2 == 1 {
+				_ = m0.Summary()
+				_ = m0.String()
+				defer func() {
+					if what != "" {
+						what += " (the decoded message was printed with Summary() and String() before it was re-encoded)"
+					}
+				}()
+			}
 			b1 := m0.ToBytes()
 			m1, err := dhcpv6.FromBytes(b1)
 			if err != nil {
